@@ -31,11 +31,18 @@ PARAM_KINDS = OrderedDict(
         ("boolf", OrderedDict((("doc", "the flag"), ("typ", "bool"), ("default", False)))),
         ("float_nodefault", OrderedDict((("doc", "the ratio"), ("typ", "float")))),
         ("optstr", OrderedDict((("doc", "the label"), ("typ", "Optional[str]"), ("default", A.NoneStr)))),
+        # parameters without a description of their own (the docstring is then the summary alone)
+        ("int5_nodoc", OrderedDict((("typ", "int"), ("default", 5)))),
+        ("strx_nodoc", OrderedDict((("typ", "str"), ("default", "x")))),
+        ("lit_nodoc", OrderedDict((("typ", "Literal['fast', 'slow', 'dry']"), ("default", "fast")))),
+        ("lit", OrderedDict((("doc", "the mode"), ("typ", "Literal['fast', 'slow', 'dry']"), ("default", "fast")))),
     )
 )
-TRUTHS = [["int5"], ["strx"], ["int5", "strx"], ["strx", "boolf"], ["boolf", "int5"], ["float_nodefault", "int5"], ["optstr"], ["int5", "optstr"], ["int5", "strx", "boolf"], ["strx", "int5", "optstr"]]
+TRUTHS = [["int5"], ["strx"], ["int5", "strx"], ["strx", "boolf"], ["boolf", "int5"], ["float_nodefault", "int5"], ["optstr"], ["int5", "optstr"], ["int5", "strx", "boolf"], ["strx", "int5", "optstr"],
+          ["int5_nodoc", "strx_nodoc"], ["strx_nodoc", "lit_nodoc", "int5_nodoc"], ["strx", "lit"], ["lit_nodoc"]]
 DIFFERENT = ["zeta_int9"]
-STATES = ["equivalent", "different", "diff_default", "diff_extra", "missing", "empty"]
+# near-miss targets: the truth with one default changed / one trailing parameter more / its last parameter missing / its Literal one member short
+STATES = ["equivalent", "different", "diff_default", "diff_extra", "diff_tail_missing", "diff_literal_short", "missing", "empty"]
 
 PRE = 'import os\n\n\ndef unrelated_before(q=1):\n    """Unrelated."""\n    return q\n\n\n'
 POST = '\n\nclass UnrelatedAfter(object):\n    """Unrelated."""\n\n    k: int = 3\n'
@@ -49,8 +56,18 @@ def variant(keys, how):
         first["default"] = {int: 77, str: "other", bool: True, float: 7.5}.get(type(first.get("default")), 77) if first.get("default") != A.NoneStr else "set"
         if first.get("typ") == "Optional[str]":
             first["default"] = "set"
+    elif how == "diff_tail_missing":
+        if len(ir["params"]) < 2:
+            return None
+        ir["params"].popitem()
+    elif how == "diff_literal_short":
+        lit = [p for p in ir["params"].values() if p["typ"].startswith("Literal[")]
+        if not lit:
+            return None
+        lit[-1]["typ"] = "Literal['fast', 'slow']"
     else:
-        ir["params"]["omega"] = OrderedDict((("doc", "the omega"), ("typ", "int"), ("default", 3)))
+        nodoc = all("doc" not in p for p in ir["params"].values())
+        ir["params"]["omega"] = OrderedDict((("typ", "int"), ("default", 3))) if nodoc else OrderedDict((("doc", "the omega"), ("typ", "int"), ("default", 3)))
     return ir
 
 
@@ -88,6 +105,8 @@ def cases(tier, seed):
         for truth in KINDS:
             others = [k for k in KINDS if k != truth]
             for sa, sb in itertools.product(STATES, repeat=2):
+                if any(st.startswith("diff_") and variant(t, st) is None for st in (sa, sb)):
+                    continue  # that near miss does not exist for this interface
                 yield dict(truth=truth, iface=t, states={others[0]: sa, others[1]: sb})
 
 
@@ -251,8 +270,8 @@ def run(case):
 
 def describe(tier):
     return dict(
-        rule="initial states: truth kind in {{class, function, argparse_function}} x {n} truth interfaces (1-2 parameters over 5 kinds) x each of the two "
-        "other targets in {{equivalent, different, missing, empty}}; every file holds an unrelated definition before and after its target; transition = "
+        rule="initial states: truth kind in {{class, function, argparse_function}} x {n} truth interfaces (1-3 parameters over 9 kinds, with and without per-parameter descriptions) x each of the two "
+        "other targets in {{equivalent, different, near misses (one default changed, one trailing parameter more, last parameter missing, Literal one member short), missing, empty}}; every file holds an unrelated definition before and after its target; transition = "
         "one real `sync` run; runs 1..3 (closes when a run changes nothing); a case = one initial state".format(n=len(TRUTHS)),
         bounds=dict(truths=TRUTHS, states=STATES, kinds=KINDS, rounds=3),
         exhaustive=True,
